@@ -8,6 +8,9 @@ def poisson(kmean: float) -> callable:
     :param kmean: mean of poisson distribution
     :returns p: Callable
     """
+    # an int-typed mean meets fixed-width integer degrees (np.arange, degree arrays)
+    # in pow(kmean, k), which then wraps silently
+    kmean = float(kmean)
 
     def p(k: int) -> float:
         return np.exp(-kmean) * pow(kmean, k) / math.factorial(k)
